@@ -27,7 +27,16 @@ from common import (Ctx, Failure, cbool, clist, cnat, copt, cpair, corpus_cases,
                     float_dyadic, shrink_list)
 
 COQ_TARGETS = ["props/P_C13.vo", "corr/Corr_C13.vo"]
-PROOF_FILES = ["proofs/Predicates_proofs.v", "proofs/ErrScan_proofs.v"]
+PROOF_FILES = ["proofs/Predicates_proofs.v", "proofs/ErrScan_proofs.v", "proofs/Predicates_sync.v"]
+
+
+def pre_build():
+    """regenerate coq/gen/Predicates_gen.v from /repo's current predicate_helpers.py::predicate_to_koreo_result
+    (fail-closed translator); proofs/Predicates_sync.v proves the hand model equal to it"""
+    import translate_predicates
+    translate_predicates.main()
+
+
 RULE = ("predicate lists (1..20 entries) over the five outcome kinds x truth values, written as real "
         "precondition specs: exhaustive kind x truth assignments up to a length bound; every position of a "
         "non-boolean / failing assertion, message or delay in short lists; random longer lists with injected "
@@ -48,7 +57,10 @@ ASSUMPTIONS = [
     "function over an existing object, against the in-memory cluster harness/cluster.py (postconditions part)",
 ]
 TRUSTED = ["in-process wrapper around celpy.InterpretedRunner.evaluate that records, per evaluation site, "
-           "what celpy did"]
+           "what celpy did",
+           "harness/translate_predicates.py (Python-ast -> Gallina transcription of predicate_helpers."
+           "predicate_to_koreo_result; conventions in its docstring: mapping patterns = dict lookups on vtree maps, "
+           "f-string = Predicates.fmt, int(f-string) = Predicates.delay_of, json.dumps raising = not Predicates.dumpable)"]
 
 # ResourceFunctions are run (a) against a *sentinel* API object that records and refuses every
 # attribute access (mode "rf"): "preconditions decided => cluster not touched, locals not
